@@ -58,6 +58,7 @@ class Context:
         self._oracle_cache = {}
         self.ghost_log = []
         self.sigma_cache = {}
+        self.axsum_log = []
         self.sigma_terms = []
         V.ORACLE = self.implied
 
